@@ -145,7 +145,10 @@ def run(ctx):
     ctx.validate("Trace_Codec", events, header={"schema": schema}, shard=2500)
     # (ii) unknown fields interleaved anywhere (spec -> code)
     small, msgs = c02.pool(ctx, quick)
-    lcases = c02.run_legalenc(ctx, small, msgs, (0, 0, 2, 2, 2) if quick else (1, 1, 2, 3, 3), True)
+    lcases = c02.run_legalenc(ctx, small, msgs, (0, 0, 2, 2, 2) if quick else (1, 1, 2, 3, 2), True, 1500 if quick else 6000)
+    if len(lcases) > (60000 if quick else 400000):          # (a seeded sample of the exported encodings is replayed)
+        ctx.rnd.shuffle(lcases)
+        lcases = lcases[:60000 if quick else 400000]
     ev2 = ctx.pmap(unk_event, lcases)
     for e in ev2:
         ctx.count_case(("unk", bytes(e["b"])), len(e["unk"]) > 0)
